@@ -281,6 +281,9 @@ def match_known(prop, sig):
 # ---------------------------------------------------------------------------
 # Result of a check
 # ---------------------------------------------------------------------------
+CURRENT = None     # the outcome being built (so that violations already established survive a later tool error)
+
+
 class Outcome:
     def __init__(self, prop, tier, seed, level):
         self.prop = prop
@@ -298,6 +301,8 @@ class Outcome:
         self.assumptions = []
         self.legs = []
         self.tool_errors = []
+        global CURRENT
+        CURRENT = self
 
     def add_tlc(self, r):
         self.states += r.distinct
